@@ -17,6 +17,8 @@ import (
 	"math/big"
 	"os"
 	"reflect"
+	"runtime"
+	"runtime/debug"
 	"strconv"
 	"strings"
 
@@ -809,6 +811,8 @@ func main() {
 			continue
 		}
 		runJob(&jobs[i], os.Args[2])
+		runtime.GC()
+		debug.FreeOSMemory()
 	}
 }
 
